@@ -110,6 +110,7 @@ type Interp struct {
 	inputRoots   []*Cell
 	PowApplied   []*ssa.Function
 	loopIter     map[*ssa.BasicBlock]int
+	bigVals      map[*Cell]*Term
 }
 
 type oracle struct {
@@ -878,31 +879,43 @@ func (it *Interp) assumeAtom(a *PAtom, v bool) {
 			}
 		}
 	}
-	// narrow the range of a symbolic integer compared with a constant
+	// narrow the range of a symbolic integer compared with a constant:  B - A > 0 with B - A = c0 ± atom
 	if a.Kind == PLT {
-		if at := a.A.SingleAtom(); at != nil && at.Kind == ISym {
-			if k, ok := a.B.IsConst(); ok {
-				cur := it.curAtom(at)
-				lo, hi := cur.Lo, cur.Hi
-				if v { // at < k
-					hi = minBig(hi, new(big.Int).Sub(k, bigOne))
-				} else {
-					lo = maxBig(lo, k)
-				}
-				it.bind[at] = SymInt(fmt.Sprintf("%s∈[%s,%s]", at.Name, lo, cstr(hi)), lo, hi)
-				it.narrowOf(it.bind[at].SingleAtom(), at)
+		d := a.B.Sub(a.A)
+		var at *IAtom
+		var c1 *big.Int
+		c0 := new(big.Int)
+		ok := len(d.mons) <= 2
+		for _, m := range d.mons {
+			if len(m.preds) > 0 {
+				ok = false
+			}
+			if m.atom == nil {
+				c0 = m.c
+			} else if m.atom.Kind == ISym && m.c.CmpAbs(bigOne) == 0 && at == nil {
+				at, c1 = m.atom, m.c
+			} else {
+				ok = false
 			}
 		}
-		if at := a.B.SingleAtom(); at != nil && at.Kind == ISym {
-			if k, ok := a.A.IsConst(); ok {
-				cur := it.curAtom(at)
-				lo, hi := cur.Lo, cur.Hi
-				if v { // k < at
-					lo = maxBig(lo, new(big.Int).Add(k, bigOne))
-				} else {
-					hi = minBig(hi, k)
-				}
-				it.bind[at] = SymInt(fmt.Sprintf("%s∈[%s,%s]", at.Name, lo, cstr(hi)), lo, hi)
+		if ok && at != nil {
+			cur := it.curAtom(at)
+			lo, hi := cur.Lo, cur.Hi
+			switch {
+			case c1.Sign() > 0 && v: // c0 + at > 0
+				lo = maxBig(lo, new(big.Int).Sub(bigOne, c0))
+			case c1.Sign() > 0 && !v: // c0 + at <= 0
+				hi = minBig(hi, new(big.Int).Neg(c0))
+			case c1.Sign() < 0 && v: // c0 - at > 0
+				hi = minBig(hi, new(big.Int).Sub(c0, bigOne))
+			default: // c0 - at <= 0
+				lo = maxBig(lo, c0)
+			}
+			base := BaseSym(at)
+			if lo.Cmp(hi) == 0 {
+				it.bind[at] = TConst(lo)
+			} else {
+				it.bind[at] = SymInt(fmt.Sprintf("%s∈[%s,%s]", base.Name, lo, cstr(hi)), lo, hi)
 				it.narrowOf(it.bind[at].SingleAtom(), at)
 			}
 		}
@@ -1117,7 +1130,6 @@ func (it *Interp) ApplyPoly(p *Poly) *Poly {
 	}
 	return p
 }
-
 
 // DeepApplyTerm substitutes the path's assumed predicate atoms everywhere in t, also inside atom arguments.
 func (it *Interp) DeepApplyTerm(t *Term) *Term {
